@@ -343,18 +343,24 @@ def _judge(rep, info, fe, Tn, TMin, TMax, dT, rTol, spin_lo, spin_hi, exact_fiel
         g = model.grad(x, T)
         H = model.hess(x, T)
         mineig = float(np.min(np.linalg.eigvalsh(H)))
-        if np.max(np.abs(g)) > 1e-4 * gscale or mineig < -1e-6 * gscale / scale_f:
+        if not np.max(np.abs(g)) <= 0.0001 * gscale or not mineig >= -1e-06 * gscale / scale_f:
             rep.violation("a tabulated point is not a local minimum of the potential (closed-form gradient/Hessian)",
                           dict(info, T=float(T), tabulated=x.tolist(), gradient=g.tolist(), min_hessian_eigenvalue=mineig), finding_key="C11:not-minimum")
             return
         ef = exact_field(T)
-        if np.max(np.abs(x - ef)) > 0.05 * scale_f or (prev is not None and np.max(np.abs(x - prev)) > 0.2 * scale_f):
+        if not np.all(np.isfinite(ef)):
+            # T beyond the spinodal by less than the 1e-6 allowance admitted above (the tracer locates the spinodal to ~1e-7: the last few
+            # tabulated points sit 2e-8 ... 2e-7 beyond it), where the closed form of the branch has no real value any more: the point has
+            # passed the gradient/Hessian test; only its continuity with the previous point is left to judge
+            rep.count("tabulated point within rounding of the spinodal (closed-form branch not real)")
+            ef = x
+        if not np.max(np.abs(x - ef)) <= 0.05 * scale_f or (prev is not None and (not np.max(np.abs(x - prev)) <= 0.2 * scale_f)):
             rep.violation("the tabulated minimum left the continuous branch of the starting point (minimiser hopping)",
                           dict(info, T=float(T), tabulated=x.tolist(), branch=ef.tolist()), finding_key="C11:branch")
             return
         prev = x
         ev = float(model.evaluate(__import__("WallGo").fields.Fields(x.tolist()), T)[0])
-        if abs(row[-1] - ev) > 1e-10 * (abs(ev) + Tn ** 4):
+        if not abs(row[-1] - ev) <= 1e-10 * (abs(ev) + Tn ** 4):
             rep.violation("tabulated free energy is not the potential evaluated at the tabulated minimum", dict(info, T=float(T), tabulated=float(row[-1]), potential=ev),
                           finding_key="C11:value")
             return
@@ -370,7 +376,7 @@ def _judge(rep, info, fe, Tn, TMin, TMax, dT, rTol, spin_lo, spin_hi, exact_fiel
         if (not crosses) and flag:
             rep.violation(f"the {side} end is flagged as a genuine disappearance although the phase exists over the whole requested range",
                           dict(info, side=side, table_end=float(end), requested=req), finding_key=f"C11:flag-spurious:{side}")
-        if not crosses and abs(end - req) > 1e-9 * Tn:
+        if not crosses and (not abs(end - req) <= 1e-09 * Tn):
             rep.violation(f"the table does not reach the requested {side} end although the phase exists there",
                           dict(info, side=side, table_end=float(end), requested=req), finding_key=f"C11:coverage:{side}")
     # interpolation accuracy inside the possible range
@@ -378,7 +384,7 @@ def _judge(rep, info, fe, Tn, TMin, TMax, dT, rTol, spin_lo, spin_hi, exact_fiel
     for T in np.linspace(a, b_, 25):
         v = fe(T)
         ev = exact_V(T)
-        if abs(float(v.veffValue) - ev) > 50 * rTol * (abs(ev - exact_V(Tn)) + 1e-3 * Tn ** 4):
+        if not abs(float(v.veffValue) - ev) <= 50 * rTol * (abs(ev - exact_V(Tn)) + 0.001 * Tn ** 4):
             rep.violation("interpolated free energy differs from the exact minimum by more than the tracing tolerance",
                           dict(info, T=float(T), interpolated=float(v.veffValue), exact=ev, rTol=rTol), finding_key="C11:interp-accuracy")
             break
@@ -404,7 +410,7 @@ def search(rep: C.Report, tier: str, broken):
             rep.count("findCriticalTemperature raised " + type(ex).__name__)
             continue
         rep.case(key=("Tc", str(sorted(params.items()))), sample={"params": params, "Tc": Tc, "exact": info["Tc"]})
-        if abs(Tc - info["Tc"]) > 1e-5 * info["Tc"]:
+        if not abs(Tc - info['Tc']) <= 1e-05 * info['Tc']:
             rep.violation("critical temperature is not where the free energies cross", {"params": params, "Tc": Tc, "exact": info["Tc"]},
                           finding_key="C11:Tc-value")
         below = Tc * (1 - 1e-3)
@@ -442,12 +448,12 @@ def search(rep: C.Report, tier: str, broken):
             info.update(Tc=Tc, exact=Tc0, low_table=[float(lowT.min()), float(lowT.max())], high_table=[float(highT.min()), float(highT.max())],
                         low_flags=[bool(th.freeEnergyLow.minPossibleTemperature[1]), bool(th.freeEnergyLow.maxPossibleTemperature[1])],
                         high_flags=[bool(th.freeEnergyHigh.minPossibleTemperature[1]), bool(th.freeEnergyHigh.maxPossibleTemperature[1])])
-            if lowT.max() > T1_ * (1 + 1e-5) or highT.min() < T0_ * (1 - 1e-5):   # 10 rTol: the spinodal itself is only resolved to the tracing tolerance
+            if not lowT.max() <= T1_ * (1 + 1e-05) or not highT.min() >= T0_ * (1 - 1e-05):   # 10 rTol: the spinodal itself is only resolved to the tracing tolerance
                 rep.violation("a phase traced by findCriticalTemperature is tabulated beyond its spinodal", info, finding_key="C11:beyond-spinodal")
             elif not (th.freeEnergyLow.maxPossibleTemperature[1] and th.freeEnergyHigh.minPossibleTemperature[1]):
                 rep.violation("a phase disappears inside the range traced by findCriticalTemperature but the end is not flagged", info,
                               finding_key="C11:flag-missing:self-traced")
-            if abs(Tc - Tc0) > 1e-5 * Tc0:
+            if not abs(Tc - Tc0) <= 1e-05 * Tc0:
                 rep.violation("critical temperature (phases traced by findCriticalTemperature itself) is not where the free energies cross",
                               info, finding_key="C11:Tc-value")
     # requested ranges whose ends lie on the lattice T0 + k*dT (round numbers, as users type them): the accumulated steps miss the end of the
@@ -494,7 +500,7 @@ def search(rep: C.Report, tier: str, broken):
             if e0 > worst[0]:
                 worst = (e0, e1, float(T))
         # judged on the VALUE only (the property's clause); the derivative error at that temperature is recorded for information
-        if worst[0] > 3e-6:
+        if not worst[0] <= 3e-06:
             rep.violation("inside the advertised range the interpolated free energy differs from the potential at the exact minimum by more than the requested "
                           "tracing tolerance (rTol = 1e-6, relative)", dict(info, rel_error_F=worst[0], rel_error_dFdT_there=worst[1], at_T=worst[2],
                                                               advertised_range=[float(a_), float(b_)]), finding_key="C11:interp-accuracy-aligned")
@@ -523,7 +529,7 @@ def search(rep: C.Report, tier: str, broken):
             if phase == "high" and not fe.minPossibleTemperature[1]:
                 rep.violation("after tracing the same object a second time over the same range the lower end is no longer flagged although the phase "
                               "disappears inside the requested range", info, finding_key="C11:flag-missing:retrace")
-            if (spin_hi is not None and Tst.max() > spin_hi * (1 + 1e-5)) or (spin_lo is not None and Tst.min() < spin_lo * (1 - 1e-5)):
+            if spin_hi is not None and (not Tst.max() <= spin_hi * (1 + 1e-05)) or (spin_lo is not None and (not Tst.min() >= spin_lo * (1 - 1e-05))):
                 rep.violation("after a second trace the table extends beyond a spinodal", info, finding_key="C11:beyond-spinodal")
     # two crossings inside the coexistence range (the low-T phase is favoured only between them; high-T favoured at the top of the range, so
     # the direction is the documented one): the critical temperature is the crossing BELOW which the low-T phase is favoured, i.e. the upper one
@@ -556,7 +562,7 @@ def search(rep: C.Report, tier: str, broken):
             continue
         dlt = 0.05 * (Thi - Tlo)
         below = float(th.freeEnergyLow(Tc - dlt).veffValue - th.freeEnergyHigh(Tc - dlt).veffValue)
-        if abs(Tc - Thi) > 1e-6 * Thi or not below < 0:
+        if not abs(Tc - Thi) <= 1e-06 * Thi or not below < 0:
             rep.violation("with two crossings in the coexistence range (high-T phase favoured at its top) the returned critical temperature is not the "
                           "crossing below which the low-temperature phase is favoured",
                           {"crossings": [Tlo, Thi], "coexistence_range": list(rng_), "dT": dT_, "Tc_returned": float(Tc),
